@@ -24,6 +24,7 @@ type FakeConn struct {
 	Deadlines []time.Time
 	Reads     int
 	OnWrite   func(total int) // called once after a Write has delivered its bytes to the client (no lock held)
+	DataErr   bool            // the last scripted chunk is handed out TOGETHER with the Fin error (n > 0 and err != nil in one call, as io.Reader allows)
 	Block     bool            // with no chunk left, Read waits for Feed instead of reporting Fin
 	Waiting   int             // readers currently waiting
 	cond      *sync.Cond
@@ -68,6 +69,16 @@ func (f *FakeConn) Read(b []byte) (int, error) {
 	if len(c) <= len(b) {
 		copy(b, c)
 		f.Chunks = f.Chunks[1:]
+		if f.DataErr && len(f.Chunks) == 0 && !f.Block {
+			switch f.Fin {
+			case "eof":
+				return len(c), io.EOF
+			case "timeout":
+				return len(c), os.ErrDeadlineExceeded
+			default:
+				return len(c), ErrScripted
+			}
+		}
 		return len(c), nil
 	}
 	copy(b, c[:len(b)])
